@@ -440,6 +440,7 @@ def correspond(ctx):
 
     smiles_dict_stream(ctx, groups)
     malformed_stream(ctx, mols)
+    cgr_stream(ctx)
     history_stream(ctx)
     defaults_stream(ctx, [m for m in mols if 2 <= len(m[1]._atoms) <= 40][:30 if ctx.quick else 300])
 
@@ -561,6 +562,11 @@ def oracle_paths(mol, lo, hi):
 
 
 def oracle_ident(mol):
+    """atom identifiers: molecules — (isotope or 0, Z, charge, radical); condensed reaction graphs additionally carry the
+    product-side charge and radical state"""
+    if type(mol).__name__ == 'CGRContainer':
+        return {n: hash((a.isotope or 0, a.atomic_number, a.charge, a.p_charge, a.is_radical, a.p_is_radical))
+                for n, a in mol._atoms.items()}
     return {n: hash((a.isotope or 0, a.atomic_number, a.charge, a.is_radical)) for n, a in mol.atoms()}
 
 
@@ -572,7 +578,7 @@ def oracle_fragment_counts(mol, lo, hi):
     for p in oracle_paths(mol, lo, hi):
         seq = [ident[p[0]]]
         for x, y in zip(p, p[1:]):
-            seq += [int(mol.bond(x, y)), ident[y]]
+            seq += [int(mol._bonds[x][y]), ident[y]]
         seq = tuple(seq)
         key = max(seq, seq[::-1])
         counts[key] = counts.get(key, 0) + 1
@@ -1056,6 +1062,110 @@ def malformed_stream(ctx, mols):
                       f'real={_short(real, 100)} model={_short(parse_model(op, r), 100)}')
 
 
+# ------------------------------------------------------------------------------------------------
+# condensed reaction graphs (FingerprintsCGR): same linear/Morgan code over other identifiers; no Lean model of the CGR
+# containers here, so this stream compares the real code with the documentation-level oracle and across numberings
+# ------------------------------------------------------------------------------------------------
+
+CGR_EDITS = ('delete_bond', 'add_bond', 'charge', 'radical', 'bond_order')
+
+
+def make_cgr(inp, renumbered=False):
+    """reactant = the SMILES, product = the same atoms after the edits; `renumbered`: both sides renumbered with one
+    mapping and re-inserted in random order (seeded by inp['rseed']) before composing"""
+    import random
+    from chython import smiles
+    m1 = smiles(inp['smiles'])
+    m1.clean_stereo()
+    m2 = m1.copy()
+    for e in inp['edits']:
+        if e[0] == 'bond_order':
+            m2.delete_bond(e[1], e[2])
+            m2.add_bond(e[1], e[2], e[3])
+        else:
+            m2 = apply_edit(m2, e)
+    if renumbered:
+        rng = random.Random(inp['rseed'])
+        m1, mapping = molgen.renumber(rng, m1)
+        m2 = m2.copy()
+        m2.remap(mapping)
+    return m1 ^ m2
+
+
+def cgr_cases(ctx, n):
+    rng = ctx.rng
+    smis = [x for x in molgen.HANDMADE if '.' not in x] + rng.sample(molgen.corpus_smiles(), min(3 * n, 600))
+    out, tries = [], 0
+    while len(out) < n and tries < 20 * n:
+        tries += 1
+        smi = rng.choice(smis)
+        mol = molgen.parse(smi)
+        if mol is None or not 2 <= len(mol._atoms) <= 30:
+            continue
+        atoms = list(mol._atoms)
+        bonds = [(a, b, int(o)) for a, b, o in mol.bonds()]
+        edits = []
+        for _ in range(rng.choice([1, 2, 2, 3])):
+            k = rng.choice(CGR_EDITS)
+            if k == 'delete_bond' and bonds:
+                a, b, _o = rng.choice(bonds)
+                if not any(e[0] in ('delete_bond', 'bond_order') and {e[1], e[2]} == {a, b} for e in edits):
+                    edits.append(['delete_bond', a, b])
+            elif k == 'bond_order' and bonds:
+                a, b, o = rng.choice(bonds)
+                if not any(e[0] in ('delete_bond', 'bond_order') and {e[1], e[2]} == {a, b} for e in edits):
+                    edits.append(['bond_order', a, b, rng.choice([x for x in (1, 2, 3) if x != o])])
+            elif k == 'add_bond' and len(atoms) > 2:
+                a, b = rng.sample(atoms, 2)
+                if b not in mol._bonds[a] and not any(e[0] == 'add_bond' and {e[1], e[2]} == {a, b} for e in edits):
+                    edits.append(['add_bond', a, b, 1])
+            elif k == 'charge':
+                edits.append(['charge', rng.choice(atoms), rng.choice([-1, 1])])
+            elif k == 'radical':
+                edits.append(['radical', rng.choice(atoms), 1])
+        if not edits:
+            continue
+        lo, hi = rng.choice(RADII)
+        inp = {'kind': 'cgr', 'smiles': smi, 'edits': edits, 'rseed': rng.randrange(10 ** 6),
+               'params': [lo, min(hi, 5), rng.choice([64, 1024, 4096]), rng.randint(1, 4), rng.randint(0, 5)]}
+        inp['params'][0] = min(inp['params'][0], inp['params'][1])
+        try:
+            c = make_cgr(inp)
+            make_cgr(inp, True)
+        except Exception:
+            continue   # edit not applicable / composition refused: not this property's business
+        if not _n_paths_ok(c, inp['params'][1]):
+            continue
+        out.append(inp)
+    return out
+
+
+def cgr_checks(inp):
+    c = make_cgr(inp)
+    c2 = make_cgr(inp, True)
+    p = tuple(inp['params'])
+    res = list(property_checks(c, *p)) + list(numbering_checks(c, c2, *p))
+    ident = c._atom_identifiers
+    if ident != oracle_ident(c):
+        res.append(('C17/atom-identifiers/FingerprintsCGR', 'CGR atom identifiers are not the hash of (isotope or 0, Z, charge, '
+                    'p_charge, radical, p_radical)'))
+    return [(sig.replace('C17/', 'C17/cgr-', 1), 'condensed reaction graph: ' + what) for sig, what in res]
+
+
+def cgr_stream(ctx):
+    for inp in cgr_cases(ctx, 40 if ctx.quick else 500):
+        ctx.count(('cgr', inp['smiles'], json.dumps(inp['edits']), tuple(inp['params'])), True)
+        ctx.dist('relational:cgr')
+        try:
+            res = cgr_checks(inp)
+        except Exception as e:
+            ctx.broke('relational', 'cgr/exception', f'{type(e).__name__}: {e} on {inp["smiles"]} {inp["edits"]}')
+            continue
+        for sig, what in res:
+            ctx.cov['disagreements_checked'] += 1
+            ctx.fail(sig, what, inp)
+
+
 def defaults_stream(ctx, mols):
     """entry points called without arguments vs the model called with the regenerated default values"""
     d = _state.get('defaults')
@@ -1090,7 +1200,7 @@ def defaults_stream(ctx, mols):
             if meth.endswith('_fingerprint'):
                 real = ('ok', [i for i, x in enumerate(v) if x])
             elif op == 'frags':
-                real = ('ok', sorted((tuple(k), sorted(tuple(q) for q in ps)) for k, ps in v.items()))
+                real = ('ok', sorted((tuple(k), _frag_list(tuple(k), ps)) for k, ps in v.items()))
             elif op == 'mdict':
                 real = ('ok', [sorted(x.items()) for x in v])
             elif op == 'chains':
@@ -1125,6 +1235,12 @@ def probe(inp):
     if kind == 'fold':
         res = list(fold_checks(inp['length'], inp['nab'], inp['hashes']))
         return bool(res), '; '.join(w for _, w in res) or 'folding follows the documented windows and stays below length'
+    if kind == 'cgr':
+        try:
+            res = cgr_checks(inp)
+        except Exception as e:
+            return False, f'case not constructible: {type(e).__name__}: {e}'
+        return bool(res), '; '.join(w for _, w in res) or 'all clauses hold on this condensed reaction graph'
     if kind == 'dict-keys':
         mol, _ = wire.ints_to_mol(inp['mol'], calc=True)
         op, params = inp['op'], tuple(inp['params'])
